@@ -131,6 +131,8 @@ static bool relevant(const std::string& prop, const std::string& vprops, const C
     const bool mem = has_prop(vprops, "MEM");
     const uint8_t k = e.last.k;
     if (prop == "C17") return (in_fault || e.fault_seen) && (generic || mem || has_prop(vprops, "C06") || has_prop(vprops, "C07"));
+    // (also behind a reserve that failed: the vector still has to be what its capacity() says)
+    if (prop == "C10" && !in_fault) return (generic || mem) && (k == O_RS || e.fill_phase || (e.fault_seen && (k == O_EB || k == O_FILL)));
     if (in_fault || e.fault_seen) return false;
     if (prop == "C01") return generic && is_c01_op(k) && !e.seen_pair_op;
     if (prop == "C02") return mem || has_prop(vprops, "CRASH");
